@@ -33,6 +33,30 @@ type tcase struct {
 	K1    map[int][]int `json:"k1,omitempty"`
 	K2    map[int][]int `json:"k2,omitempty"`
 	K2Nil bool          `json:"k2nil,omitempty"`
+	// Poison: before the case, the interface{} family is called with an element that cannot be a map key
+	// (a slice) after a few ordinary ones; whatever those calls do (they may panic, the panic is recovered
+	// and ignored), they must leave nothing behind that changes the answers of this case
+	Poison bool `json:"poison,omitempty"`
+}
+
+// poison: see tcase.Poison.
+func poison(prefix []int) {
+	bad := append(toI(prefix), []int{1}, 3)
+	calls := []func(){
+		func() { fpgo.DistinctForInterface(bad...) },
+		func() { fpgo.StreamForInterface.FromArray(bad).Distinct() },
+		func() { fpgo.IntersectionForInterface(bad, bad) },
+		func() { fpgo.MinusForInterface(bad, toI(prefix)) },
+		func() { fpgo.MinusForInterface(toI(prefix), bad) },
+		func() { fpgo.IsSubsetForInterface(bad, bad) },
+		func() { fpgo.ExistsForInterface(3, bad...) },
+		func() { fpgo.SliceToMapForInterface(true, bad...) },
+		func() { fpgo.StreamForInterface.FromArray(bad).Intersection(fpgo.StreamForInterface.FromArray(bad)) },
+		func() { fpgo.StreamForInterface.FromArray(bad).Minus(fpgo.StreamForInterface.FromArray(toI(prefix))) },
+	}
+	for _, f := range calls {
+		vlib.Try(f)
+	}
 }
 
 func showList(l []int) string {
@@ -936,6 +960,44 @@ func (k *checker) ssets() {
 		func() bool { return refSubset(sortedKeys(keys1), sortedKeys(keys2)) })
 	boolCell("IsSupersetByKey", func() bool { return gA.IsSupersetByKey(gBview) }, func() bool { return iA.IsSupersetByKey(iB) },
 		func() bool { return refSubset(sortedKeys(keys2), sortedKeys(keys1)) })
+	// chained: the RESULT of one operation is the operand (either side) of a second one; the two
+	// families must still give the same answer (a result that merely looks right - e.g. one holding a
+	// typed-nil stream in the interface{} family - shows up here)
+	if !c.K2Nil {
+		type first struct {
+			n string
+			g func() *fpgo.StreamSetDef[int, int]
+			i func() *fpgo.StreamSetForInterfaceDef
+		}
+		firsts := []first{
+			{"Union", func() *fpgo.StreamSetDef[int, int] { return gA.Union(gB) }, func() *fpgo.StreamSetForInterfaceDef { return iA.Union(iB) }},
+			{"Intersection", func() *fpgo.StreamSetDef[int, int] { return gA.Intersection(gB) }, func() *fpgo.StreamSetForInterfaceDef { return iA.Intersection(iB) }},
+			{"MinusStreams", func() *fpgo.StreamSetDef[int, int] { return gA.MinusStreams(gB) }, func() *fpgo.StreamSetForInterfaceDef { return iA.MinusStreams(iB) }},
+			{"Clone", func() *fpgo.StreamSetDef[int, int] { return gA.Clone() }, func() *fpgo.StreamSetForInterfaceDef { return iA.Clone() }},
+		}
+		type second struct {
+			n string
+			g func(r *fpgo.StreamSetDef[int, int]) *fpgo.StreamSetDef[int, int]
+			i func(r *fpgo.StreamSetForInterfaceDef) *fpgo.StreamSetForInterfaceDef
+		}
+		seconds := []second{
+			{"Clone()", func(r *fpgo.StreamSetDef[int, int]) *fpgo.StreamSetDef[int, int] { return r.Clone() }, func(r *fpgo.StreamSetForInterfaceDef) *fpgo.StreamSetForInterfaceDef { return r.Clone() }},
+			{"Intersection(B)", func(r *fpgo.StreamSetDef[int, int]) *fpgo.StreamSetDef[int, int] { return r.Intersection(gB) }, func(r *fpgo.StreamSetForInterfaceDef) *fpgo.StreamSetForInterfaceDef { return r.Intersection(iB) }},
+			{"B.Intersection(.)", func(r *fpgo.StreamSetDef[int, int]) *fpgo.StreamSetDef[int, int] { return gB.Intersection(r) }, func(r *fpgo.StreamSetForInterfaceDef) *fpgo.StreamSetForInterfaceDef { return iB.Intersection(r) }},
+			{"MinusStreams(B)", func(r *fpgo.StreamSetDef[int, int]) *fpgo.StreamSetDef[int, int] { return r.MinusStreams(gB) }, func(r *fpgo.StreamSetForInterfaceDef) *fpgo.StreamSetForInterfaceDef { return r.MinusStreams(iB) }},
+			{"B.MinusStreams(.)", func(r *fpgo.StreamSetDef[int, int]) *fpgo.StreamSetDef[int, int] { return gB.MinusStreams(r) }, func(r *fpgo.StreamSetForInterfaceDef) *fpgo.StreamSetForInterfaceDef { return iB.MinusStreams(r) }},
+			{"Union(B)", func(r *fpgo.StreamSetDef[int, int]) *fpgo.StreamSetDef[int, int] { return r.Union(gB) }, func(r *fpgo.StreamSetForInterfaceDef) *fpgo.StreamSetForInterfaceDef { return r.Union(iB) }},
+			{"A.Union(.)", func(r *fpgo.StreamSetDef[int, int]) *fpgo.StreamSetDef[int, int] { return gA.Union(r) }, func(r *fpgo.StreamSetForInterfaceDef) *fpgo.StreamSetForInterfaceDef { return iA.Union(r) }},
+		}
+		for _, f1 := range firsts {
+			for _, f2 := range seconds {
+				f1, f2 := f1, f2
+				ga := callSS(func() map[int][]int { r := f2.g(f1.g()); return readG(r.Keys(), r.Get) })
+				ia := callSS(func() map[int][]int { return readI(&f2.i(f1.i()).SetForInterfaceDef) })
+				k.twin("StreamSet.chained:"+f1.n+"->"+f2.n, ga, ia, false)
+			}
+		}
+	}
 }
 
 // ---------------------------------------------------------------- running / classifying one case
@@ -980,6 +1042,10 @@ func overlap(a, b []int) string {
 func runCase(c tcase) outcome {
 	k := &checker{c: c, classes: map[string]int{}}
 	out := outcome{classes: k.classes}
+	if c.Poison {
+		poison(c.A)
+		k.classes[c.Part+"/after-poison-call"]++
+	}
 	switch c.Part {
 	case "slices":
 		k.slices()
@@ -1198,6 +1264,7 @@ func genCase(t *rapid.T, part string) tcase {
 	}
 	c.A = genList(t, "a")
 	c.B = genRelated(t, "b", c.A)
+	c.Poison = rapid.IntRange(0, 5).Draw(t, "poison") == 0
 	if part == "slices" && rapid.IntRange(0, 2).Draw(t, "usec") == 0 {
 		c.UseC = true
 		c.C = genRelated(t, "c", c.A)
